@@ -111,6 +111,13 @@ func connectDots(fset *token.FileSet, lhs, rhs []token.Pos, conns map[token.Pos]
 			return lpos.Line < rpos.Line || lpos.Line == rpos.Line && lpos.Column <= rpos.Column
 		})
 
+		if i == len(lhs) && len(lhs) > 0 {
+			// No "..." in the "-" section at or before this position:
+			// the "+" line was written above its "-" line. Use the
+			// closest "..." after it. lhs is in descending order.
+			i = len(lhs) - 1
+		}
+
 		if i == len(lhs) {
 			return fmt.Errorf(`%v: "..." in "+" section does not have an associated "..." in "-" section`, rpos)
 		}
